@@ -124,8 +124,10 @@ void spqlios_verif_q120_term(uint64_t i, uint64_t j, uint64_t x, uint64_t y, uin
 #else
     __CPROVER_assert(p0 == (x & 0xFFFFFFFFull) * (y & 0xFFFFFFFFull) && p1 == (x & 0xFFFFFFFFull) * (y >> 32) && p2 == (x >> 32) * (y & 0xFFFFFFFFull) && p3 == (x >> 32) * (y >> 32), "b*b: the four partial products are xl*yl, xl*yh, xh*yl, xh*yh of the operands");
 #endif
+#ifndef GHOST_SUM_OFF
     ACCW += (wide_t)p0 + (((wide_t)p1 + (wide_t)p2) << 32) + (((wide_t)p3) << 64);
     if (i == 4 * GTI) { GXV = x; GYV = y; }
+#endif
   }
 }
 void spqlios_verif_q120_final(uint64_t j, uint64_t s1, uint64_t s2, uint64_t s3, uint64_t s4) {
@@ -180,10 +182,13 @@ __CPROVER_requires(BBB_TAB_OK(s2l_pow_red) && BBB_TAB_OK(s2h_pow_red) && BBB_TAB
 __CPROVER_requires(__CPROVER_is_fresh(res, 32) && __CPROVER_is_fresh(x, ell * 32) && __CPROVER_is_fresh(y, ell * 32))
 __CPROVER_requires(GK == LANE && ACCW == 0 && GTI < ell)
 __CPROVER_assigns(__CPROVER_object_upto(res, 32), GHOSTS_ASSIGNED)
+__CPROVER_ensures(ell == 0 ==> ((const uint64_t*)res)[GK] == 0) /*@bbb_empty_product_is_zero:C10*/
+#ifndef GHOST_SUM_OFF
 __CPROVER_ensures((wide_t)GF1 + (((wide_t)GF2) << 32) + (((wide_t)GF3) << 64) + (((wide_t)GF4) << 96) == ACCW) /*@bbb_accumulators_hold_the_exact_sum_of_the_partial_products:C10,C04*/
 __CPROVER_ensures(((const uint64_t*)res)[LANE] == (GF1 & BBB_M2) + (GF1 >> BBB_H) * precomp->s1h_pow_red[LANE] + (GF2 & BBB_M2) * precomp->s2l_pow_red[LANE] + (GF2 >> BBB_H) * precomp->s2h_pow_red[LANE]
                   + (GF3 & BBB_M2) * precomp->s3l_pow_red[LANE] + (GF3 >> BBB_H) * precomp->s3h_pow_red[LANE] + (GF4 & BBB_M2) * precomp->s4l_pow_red[LANE] + (GF4 >> BBB_H) * precomp->s4h_pow_red[LANE]) /*@bbb_result_is_the_recombination_of_s1_to_s4:C10*/
 __CPROVER_ensures(GXV == XB && GYV == YB) /*@bbb_term_i_partial_products_are_those_of_x_i_and_y_i:C10*/
+#endif
 ;
 void h_bbb_ref(void) {
   q120_mat1col_product_bbb_precomp* p; uint64_t ell; q120b* r; const q120b *x, *y;
